@@ -2,8 +2,9 @@
 
 P-layer : spec/Acl.tla (existential coverage, cant_delete) + spec/Device.tla (the device the patch runs on).
 S2C/C2S : catalogue rulebooks (TLC-enumerated Configs(R)) x slot-closed ACLs of one or two generators derived from the rulebook x
-          (old_full, new); the production composition api._diff_and_patch(device, old, new, acl, None, False, rb) and, for a subset,
-          the generator path annet.gen._old_new_per_device with stub generators; spec/trace/Trace_AclSafety judges (a)(b)(c).
+          (old_full, new); the combined ACL text is made by annet's own RunGeneratorResult.acl_text() from per-generator texts with
+          differing source indentation; the production composition api._diff_and_patch(device, old, new, acl, None, False, rb);
+          spec/trace/Trace_AclSafety judges (a)(b)(c).
 """
 import json
 
@@ -28,7 +29,7 @@ def run(ctx):
     # outside C02's stated domain ("rulebooks whose logic emits only the row or its negation"):
     #  - catch-all: rows of `undo ~` rules are both a line and a negation;
     #  - %rewrite rulebooks: removal is implicit (the block is re-sent), neither the row nor its negation is emitted for a removed line
-    skip_names = {"catch-all", "rewrite", "rewrite-values", "ordered-rewrite"}
+    skip_names = {"catch-all", "rewrite", "rewrite-values", "ordered-rewrite", "rewrite-deep"}
     for prof in profiles:
         cat = cases.Catalog(ctx, prof)
         aux = cat.aux_file()
@@ -40,11 +41,14 @@ def run(ctx):
             for _ in range(per):
                 a = aclgen.acl_from_rulebook(rnd, cat.entries[k - 1]["rules"], gen="genA", p=0.6)
                 acl = list(a)
+                parts = [("genA", a)]
                 if rnd.random() < 0.4:
-                    acl += aclgen.acl_from_rulebook(rnd, cat.entries[k - 1]["rules"], gen="genB", p=0.4)
+                    b = aclgen.acl_from_rulebook(rnd, cat.entries[k - 1]["rules"], gen="genB", p=0.4)
+                    acl += b
+                    parts.append(("genB", b))
                 if not acl:
                     continue
-                text = "\n".join(aclgen.acl_text(acl)) + "\n"
+                text = combined_text(rnd, parts)
                 o, n = rnd.choice(cs), rnd.choice(cs)
                 if rnd.random() < 0.15:
                     n = []           # generators return nothing / --clear
@@ -72,6 +76,20 @@ def run(ctx):
                 rec["rule_text"] = cat.compiled[rec["rb"] - 1]["text"]
                 rec["rulebook"] = cat.names[rec["rb"] - 1]
                 ctx.reject(rec["id"], v, rec, signature_of(rec, v, cat.prefix))
+
+
+def combined_text(rnd, parts):
+    """the combined ACL of the selected generators, made by annet itself (RunGeneratorResult.acl_text) from each generator's own text,
+    which comes with the indentation of the source file it was written in"""
+    from annet.generators.result import RunGeneratorResult
+    from annet.types import GeneratorPartialResult
+    res = RunGeneratorResult()
+    for name, rules in parts:
+        margin = " " * rnd.choice([0, 0, 4, 8, 12])
+        t = "\n" + "".join(margin + ln + "\n" for ln in aclgen.acl_text(rules)) + margin
+        res.add_partial(GeneratorPartialResult(name=name, tags=[], acl=t, acl_rules=None, acl_safe=t, acl_safe_rules=None, output="", config={},
+                                               safe_config={}, perf=None))
+    return res.acl_text()
 
 
 def signature_of(rec, clause, prefix):
